@@ -311,3 +311,25 @@ def inplace_between_calls(ctx: Ctx) -> None:
         if not bool((((again - fresh).abs() <= 1e-13 * (1 + fresh.abs())) | (again.isnan() & fresh.isnan())).all()):
             ctx.violation(f"inplace:{fname}", f"{fname} called again with the same tensor objects after an in-place update returns the value of the OLD contents",
                           {"again": again.tolist(), "fresh_tensors": fresh.tolist()})
+
+
+def normal_functions(ctx: Ctx) -> None:
+    """ncdf / npdf of float64 arguments are the standard normal distribution / density functions to double precision (reference:
+    math.erfc and math.exp of the C library, independent of torch), and keep the dtype of their argument."""
+    import math as _m
+    import pfhedge.nn.functional as F
+    xs = [k / 8 for k in range(-64, 65)] + [1e-9, -1e-9, 0.1234567891234, -2.718281828459, 5.5, -7.25]
+    x = torch.tensor(xs, dtype=torch.float64)
+    c, d = F.ncdf(x), F.npdf(x)
+    wc = torch.tensor([0.5 * _m.erfc(-v / _m.sqrt(2.0)) for v in xs], dtype=torch.float64)
+    wd = torch.tensor([_m.exp(-v * v / 2) / _m.sqrt(2 * _m.pi) for v in xs], dtype=torch.float64)
+    ctx.count(n=2 * len(xs))
+    if c.dtype != torch.float64 or not bool(((c - wc).abs() <= 1e-15 + 1e-13 * wc).all()):
+        i = int(((c - wc).abs() - 1e-13 * wc).argmax())
+        ctx.violation("normal:ncdf", "ncdf of a float64 argument is not the normal distribution function to double precision", {"x": xs[i], "observed": c[i].item(), "expected": wc[i].item(), "dtype": str(c.dtype)})
+    if d.dtype != torch.float64 or not bool(((d - wd).abs() <= 1e-300 + 1e-13 * wd).all()):
+        i = int(((d - wd).abs() - 1e-13 * wd).argmax())
+        ctx.violation("normal:npdf", "npdf of a float64 argument is not the normal density to double precision", {"x": xs[i], "observed": d[i].item(), "expected": wd[i].item(), "dtype": str(d.dtype)})
+    x32 = x.float()
+    if F.ncdf(x32).dtype != torch.float32 or F.npdf(x32).dtype != torch.float32:
+        ctx.violation("normal:dtype", "ncdf / npdf of a float32 argument is not float32", {})
